@@ -21,6 +21,7 @@ clause → theorem
 * the connection is failed instead .......................... `interrupted_frame_fails_connection`
 * a peer re-synchronises purely from declared lengths ....... `frames_self_delimiting`, `peer_resync`
 * each fact is necessary .................................... `torn_without_fail`, `interleaved_without_lock`
+* the driver of the correspondence runs this model .......... `driver_run_is_model_run`, `driver_frames_consistent`
 
 What is *not* a theorem: that each of the six endpoints has the two facts.  They are not extractable
 from six differently written endpoints; that tie is behavioural (correspondence family `torn`: stalled
@@ -192,6 +193,32 @@ theorem interleaved_with_lock :
     let c := run mlen both interleavedSchedule Conn.init
     c.stream = m1.toVec ++ m2.toVec ∧ c.done = [m1, m2] ∧ c.lock = none := by
   refine ⟨by decide, by decide, by decide⟩
+
+/-! ### the correspondence driver runs this very model -/
+
+/-- `repe_model_torn` runs `step` on *described* frames (`LFrame`: builder inputs + tag and length of
+the pattern body, bytes produced on demand) so that multi-MiB scripts are cheap.  That run is the run
+of the theorems' model on the corresponding `MessageBuilder` messages: same stream bytes, same completed
+frames, same `failed`, same lock — for every facts value and every event list. -/
+theorem driver_run_is_model_run (f : Facts) (evs : List (Ev LFrame)) :
+    let d := run LFrame.len f evs Conn.init
+    let c := run mlen f (evs.map (Ev.map LFrame.message)) Conn.init
+    d.streamWith LFrame.bytes = c.stream ∧ d.done.map LFrame.message = c.done ∧
+    d.failed = c.failed ∧ d.lock = c.lock := by
+  intro d c
+  have hmap : d.map LFrame.message = c :=
+    run_map LFrame.message LFrame.len mlen (fun m => (lframe_is_message m).2.symm) f evs Conn.init
+  have hb : (fun m => Message.toVec (LFrame.message m)) = LFrame.bytes := by
+    funext m; exact (lframe_is_message m).1.symm
+  refine ⟨?_, ?_, ?_, ?_⟩
+  · rw [← hmap, stream_eq_streamWith, streamWith_map, hb]
+  · rw [← hmap]; rfl
+  · rw [← hmap]; rfl
+  · rw [← hmap]; rfl
+
+/-- … and the frames it runs on are consistent, so `whole_frames` applies to its runs. -/
+theorem driver_frames_consistent (l : LFrame) (hid : l.id < 2^64)
+    (hlen : 48 + l.query.length + l.blen < 2^64) : l.message.WF := lframe_wf l hid hlen
 
 /-! ### non-vacuity -/
 
